@@ -144,6 +144,19 @@ func NewEx(conf *Config, fset *token.FileSet, files ...*ast.File) (ret Result, e
 			onConflict(fset, item.c, firsts, i, at)
 		})
 	}
+	if len(ctx.errs) == 0 {
+		// CheckConflicts only reaches rules that contain a choice. Visit the first
+		// set of every rule, so that a left-recursive rule without any choice
+		// (e.g. `doc = doc IDENT`) is reported too instead of overflowing the
+		// stack when it is matched.
+		for _, f := range files {
+			for _, decl := range f.Decls {
+				if decl, ok := decl.(*ast.Rule); ok {
+					rules[decl.Name.Name].First(nil)
+				}
+			}
+		}
+	}
 	ret = Result{doc, rules}
 	return
 }
